@@ -91,7 +91,7 @@ Print Assumptions c10_totals.
    c10_conv_bounds / c10_bid_price below.) *)
 Theorem c10_bid_amounts : forall cf lk a s who amt0 wd twa s' a' r,
   good_cfg cf lk -> good_auction cf lk a -> 0 <= twa < 9223372036854775808 ->
-  place_bid cf lk a s who amt0 wd twa = Ok (s', a', r) ->
+  place_bid_core cf lk a s who amt0 wd twa = Ok (s', a', r) ->
   0 <= r_paid r <= a_debt a /\ 0 <= r_recv r <= a_coll a /\
   match a' with
   | Some b => r_closed r = false /\ 0 < r_paid r /\
@@ -127,7 +127,7 @@ Print Assumptions c10_conv_bounds.
 Theorem c10_bid_price : forall cf lk a s who amt0 wd twa s' a' r,
   good_cfg cf lk -> good_auction cf lk a -> 0 <= twa < 9223372036854775808 ->
   c_dc cf <= P18 -> c_dc cf <= a_price a -> c_dd cf <= P18 -> c_dd cf <= dp_of lk twa ->
-  place_bid cf lk a s who amt0 wd twa = Ok (s', a', r) ->
+  place_bid_core cf lk a s who amt0 wd twa = Ok (s', a', r) ->
   holds_C10_bid (c_dc cf) (c_dd cf) (a_price a) (dp_of lk twa) (a_coll a) (a_debt a) (a_bonus a)
                 (r_paid r) (r_recv r) (r_closed r) = true.
 Proof. exact bid_price_holds. Qed.
@@ -144,7 +144,7 @@ Print Assumptions c10_bid_price.
    collateral to the owner; the reserve account pays exactly the top-up. *)
 Theorem c10_close_complete : forall cf lk a s who amt0 wd twa s' r,
   good_cfg cf lk -> good_auction cf lk a -> 0 <= twa < 9223372036854775808 -> 0 <= l_fee lk -> 0 <= who ->
-  place_bid cf lk a s who amt0 wd twa = Ok (s', None, r) ->
+  place_bid_core cf lk a s who amt0 wd twa = Ok (s', None, r) ->
   r_paid r + r_topup r = a_debt a /\
   led s' AUC_C = led s AUC_C - a_coll a /\
   led s' AUC_D - xfee s' = led s AUC_D - xfee s - (l_target lk - a_debt a) /\
@@ -163,7 +163,7 @@ Print Assumptions c10_close_complete.
    Hence an exhausted close against a reserve smaller than the shortfall is not a successful bid,
    and by [step] (a failed message's cache context is dropped) nothing changes. *)
 Theorem c10_reserve_covers_shortfall : forall cf lk a s who amt wd twa s' a' r,
-  place_bid cf lk a s who amt wd twa = Ok (s', a', r) ->
+  place_bid_core cf lk a s who amt wd twa = Ok (s', a', r) ->
   (r_exh r = false -> r_topup r = 0 /\ rsv s' = rsv s) /\
   (r_exh r = true -> exists rv, rsv s = Some rv /\ rsv s' = Some (rv - r_topup r) /\ 0 <= rv - r_topup r).
 Proof. exact reserve_spec. Qed.
@@ -173,7 +173,7 @@ Print Assumptions c10_reserve_covers_shortfall.
    successful bid (evaluated on the implementation as holds_C10_reserve) *)
 Theorem c10_reserve_backed : forall cf lk a s who amt0 wd twa s' a' r rv,
   good_cfg cf lk -> good_auction cf lk a -> 0 <= twa < 9223372036854775808 -> 0 <= l_fee lk -> 0 <= who ->
-  place_bid cf lk a s who amt0 wd twa = Ok (s', a', r) ->
+  place_bid_core cf lk a s who amt0 wd twa = Ok (s', a', r) ->
   rsv s = Some rv -> 0 <= rv <= led s LIQ_D ->
   exists rv', rsv s' = Some rv' /\ 0 <= rv' <= led s' LIQ_D /\ rv - rv' = led s LIQ_D - led s' LIQ_D.
 Proof. exact reserve_backed. Qed.
@@ -184,7 +184,7 @@ Print Assumptions c10_reserve_backed.
    and the debt collected so far *)
 Theorem c10_partial_bid_ledger : forall cf lk a s who amt0 wd twa s' b r,
   good_cfg cf lk -> good_auction cf lk a -> 0 <= twa < 9223372036854775808 ->
-  place_bid cf lk a s who amt0 wd twa = Ok (s', Some b, r) ->
+  place_bid_core cf lk a s who amt0 wd twa = Ok (s', Some b, r) ->
   xfee s' = xfee s /\ rsv s' = rsv s /\
   forall k, led s' k = led s k + delta k (BID_D who) AUC_D (r_paid r) + delta k AUC_C (BID_C who) (r_recv r).
 Proof. exact partial_ledger. Qed.
@@ -195,7 +195,7 @@ Print Assumptions c10_partial_bid_ledger.
    and the auction account ended 440072 short of its booked fees.  Now the bid is rejected
    (ErrorInvalidAppOrAssetData) and the life is unchanged ... *)
 Example c10_short_reserve_rejected :
-  place_bid w_cf w_lk w_au (w_s 1000) 0 27429945 false 1000000 = Err 3 /\
+  place_bid_core w_cf w_lk w_au (w_s 1000) 0 27429945 false 1000000 = Err 3 /\
   forall p rc t, step w_cf w_lk (mkLife (w_s 1000) (Some w_au) p rc t) (Bid 0 27429945 false 1000000)
                  = mkLife (w_s 1000) (Some w_au) p rc t.
 Proof. exact reserve_short_rejected. Qed.
@@ -203,7 +203,7 @@ Proof. exact reserve_short_rejected. Qed.
 (* ... and with a reserve that covers the shortfall the same bid closes, fully backed (non-vacuity
    of the exhausted branch of c10_close_complete) *)
 Example c10_covered_reserve_closes :
-  exists s' r, place_bid w_cf w_lk w_au (w_s 440072) 0 27429945 false 1000000 = Ok (s', None, r) /\
+  exists s' r, place_bid_core w_cf w_lk w_au (w_s 440072) 0 27429945 false 1000000 = Ok (s', None, r) /\
     r_exh r = true /\ r_paid r = 8703243 /\ r_topup r = 440072 /\ rsv s' = Some 0 /\ led s' LIQ_D = 0 /\
     led s' INI_D = 8313000 /\ xfee s' = 831300 /\ led s' AUC_D = 831300 /\ led s' AUC_C = 0.
 Proof. exact reserve_covered_closes. Qed.
@@ -214,7 +214,7 @@ Proof. exact reserve_covered_closes. Qed.
    plus the incentive 4487, the rest of the penalty (40385) is booked and backed, nothing goes to the
    empty address *)
 Example c10_external_closes :
-  exists s' r, place_bid x_cf x_lk x_au x_s 0 493593 false 1000000 = Ok (s', None, r) /\
+  exists s' r, place_bid_core x_cf x_lk x_au x_s 0 493593 false 1000000 = Ok (s', None, r) /\
     ext_incentive x_cf x_lk = 4487 /\ r_paid r = 493592 /\ r_recv r = 329061 /\
     led s' INI_D = 448720 + 4487 /\ xfee s' = 40385 /\ led s' AUC_D = 40385 /\ led s' AUC_C = 0 /\
     led s' OWN_C = 238939 /\ led s' NUL_D = 0.
@@ -428,3 +428,18 @@ Example c10_v1_nonvacuous :
   v_led (g_s f) AUC_C = 0 /\ v_led (g_s f) AUC_D = 0 /\ v_led (g_s f) BRN_D = 600000 /\
   v_led (g_s f) COL_D = 72000 /\ v_netfee (g_s f) = Some 72000 /\ v_led (g_s f) OWN_C = 384616.
 Proof. eexists. split; [vm_compute; reflexivity|]. vm_compute. repeat split; reflexivity. Qed.
+
+(* the debt asset's price feed gates every bid (fix 3349d05, finding C14-F1): a bid succeeds only
+   with an active debt price, and then it is exactly the core bid all theorems above are about;
+   without it the bid is refused (the message's cache context is dropped: no state change) *)
+Theorem c10_bid_needs_debt_price : forall cf lk a s who amt0 wd dact twa,
+  (forall x, place_bid cf lk a s who amt0 wd dact twa = Ok x ->
+     dact = true /\ place_bid_core cf lk a s who amt0 wd twa = Ok x) /\
+  (dact = false -> exists c, place_bid cf lk a s who amt0 wd dact twa = Err c).
+Proof.
+  intros cf lk a s who amt0 wd dact twa. unfold place_bid. split.
+  - intros x H. destruct (amt0 <=? 0); [discriminate|]. destruct wd; [discriminate|].
+    destruct dact; cbn [negb] in H; [split; [reflexivity|exact H]|discriminate].
+  - intros ->. destruct (amt0 <=? 0); [eexists; reflexivity|]. destruct wd; eexists; reflexivity.
+Qed.
+Print Assumptions c10_bid_needs_debt_price.
